@@ -56,6 +56,8 @@ def build_msg(m, devs, futs):
         args = [[futs[a] for a in args]]
     if cmd in ("install_suspender", "remove_suspender"):
         args = [SUSPENDERS[args[0]]]
+    if cmd == "subscribe":
+        args = [(lambda name, doc: None), "all"]      # Msg('subscribe', None, func, 'all'): a fresh per-call consumer
     if cmd == "declare_stream":
         args, obj = [obj], None          # Msg('declare_stream', None, obj, name=...)
     return Msg(cmd, obj, *args, run=run, **kwargs)
